@@ -20,9 +20,24 @@ inductive ReachableT (progs : List (List Op)) : SysT → Prop
   | init : ReachableT progs { s := initSys progs }
   | step {x x' : SysT} {i : Nat} : ReachableT progs x → x.stepAt i = some x' → ReachableT progs x'
 
-/-- how often goroutine `i` entered a handler -/
+/-- every handler entry of goroutine `i` – for an async goroutine that includes the SYNCHRONOUS handlers of the events its
+own handler publishes (`Ebu.Conc.entersOf_counterexample`), so deliveries are counted with `asyncEntersOf` below -/
 def entersOf (i : Nat) (tr : List (Nat × Obs)) : List Obs :=
   (tr.filter (fun p => p.1 == i && (match p.2 with | .enter .. => true | _ => false))).map (·.2)
+
+/-- is the event the entry of an asynchronously delivered handler? -/
+def Obs.isAsyncEnter : Obs → Bool
+  | .enter _ _ _ true => true
+  | _ => false
+
+/-- is the event the announcement of a new goroutine? -/
+def Obs.isSpawned : Obs → Bool
+  | .spawned _ => true
+  | _ => false
+
+/-- the asynchronous deliveries goroutine `i` performed: its `.enter … true` events -/
+def asyncEntersOf (i : Nat) (tr : List (Nat × Obs)) : List Obs :=
+  (tr.filter (fun p => p.1 == i && p.2.isAsyncEnter)).map (·.2)
 
 /-- the whole system is quiescent: every goroutine has finished -/
 def Sys.allDone (s : Sys) : Prop := ∀ th ∈ s.ths, th.pc = .done
